@@ -82,5 +82,28 @@ Proof.
   unfold classified5. cbn [app]. repeat split; intros; rewrite <- app_assoc; auto.
 Qed.
 
+(* Order of checks (why some rows need the rest of the frame to be well-formed).  Not violations of
+   the catalogue — every single localised fault is classified as documented — but two faults in one
+   frame are resolved in the order the decoders read, and the topic name is validated LAST:
+   - PUBLISH (both families): InvalidTopicName only after packet identifier, properties, payload and
+     the payload-format check; so a zero packet identifier or a mis-flagged payload wins over a wildcard topic;
+   - v3 will: the will topic is validated after the will message and the will QoS;
+     v5 will: the will QoS is validated before the will is read, the topic right after it is read;
+   - properties: "not allowed here" is tested before "duplicated". *)
+Example order_pid_before_topic_3 : run3 [50; 5; 0; 1; 43; 0; 0] = all3 ZeroPid.
+Proof. vm_compute. reflexivity. Qed.
+Example order_will_qos_before_will_topic_3 :
+  run3 [16; 18; 0; 4; 77; 81; 84; 84; 4; 28; 0; 10; 0; 0; 0; 1; 35; 0; 1; 109] = all3 (InvalidQos 3).
+Proof. vm_compute. reflexivity. Qed.
+Example order_payload_format_before_topic_5 : run5 [48; 7; 0; 1; 43; 2; 1; 1; 255] = all5 InvalidPayloadFormat.
+Proof. vm_compute. reflexivity. Qed.
+Example order_property_before_topic_5 : run5 [48; 6; 0; 1; 43; 2; 255; 0] = all5 (InvalidPropertyId 255).
+Proof. vm_compute. reflexivity. Qed.
+(* a wildcard topic in a frame whose payload is cut short is not classified at all: the decoders
+   never get to the topic check *)
+Example order_truncated_before_topic_3 :
+  run3 [48; 5; 0; 1; 43; 7] = (RErr (IoError KUnexpectedEof), BNone, Some (Err (IoError KUnexpectedEof))).
+Proof. vm_compute. reflexivity. Qed.
+
 Print Assumptions C20_header_every_packet_3.
 Print Assumptions C20_header_every_packet_5.
